@@ -768,6 +768,17 @@ def task_solve(ctx, repo, m, W):
             bool(tr and tr[0] == 'dump' and tr[-1] == 'dump')), W))
     for o_ in obs:
         o_.extra = dict(o_.extra or {}, backends=['z3'])
+    # start-up: the step-size criteria are OUTPUTS of the acceleration
+    # evaluation, so the first step size is chosen after the initial
+    # acceleration, not before
+    ent_tr = [e if isinstance(e, str) else e[0]
+              for e in spec.log['entry'].trace]
+    ok_start = 'init_acc' in ent_tr and 'get_timestep' in ent_tr and \
+        ent_tr.index('init_acc') < ent_tr.index('get_timestep')
+    obs.append(Obligation('startup.initial_acceleration_before_first_step',
+                          [], z3.BoolVal(bool(ok_start)), W,
+                          extra=dict(trace=str(ent_tr)[:200],
+                                     backends=['z3'])))
     ctx.prove('solve.loop', obs, replay=replay(GENERIC), use_nf=False)
     # the schedule before the first step
     entry = spec.log['entry']
